@@ -1,0 +1,39 @@
+//go:build verif
+
+package state
+
+// Machine-checked contracts for /verif/govc (contract-based deductive verification).
+// This file contains comments only; it is compiled only with -tags verif and adds no code.
+
+// ---------------------------------------------------------------- published state changes (C28)
+// A partial state (a block's published change set) is accepted by ComputeProperties only if the node
+// DB built from its node list holds exactly as many nodes as the list has entries - a repeated node
+// would make the DB smaller, so that dropping one node and repeating another cannot keep the count
+// the block announces - and the root computed over that DB has the hash the change set declares.
+// A rejected change set leaves the partial state's DB and root as they were.
+//   ndb_size(d)    number of nodes the node DB object d holds (MemoryNodeDB.Size)
+//   node_hash(n)   hash bytes of a trie node (Node.GetHashBytes)
+//@ uf ndb_size (Int) Int
+//@ uf node_hash (Iface) Slice
+//@ assume func github.com/0chain/common/core/util.(*MemoryNodeDB).Size
+//@   params mndb ctx
+//@   pure
+//@   ensures result == ndb_size(obj(mndb)) && result >= 0
+//@ assume func github.com/0chain/common/core/util.(*MemoryNodeDB).ComputeRoot
+//@   params mndb
+//@   pure
+//@ iface github.com/0chain/common/core/util.Node.GetHashBytes
+//@   params self
+//@   pure
+//@   ensures result == node_hash(self)
+//@ func (*PartialState).newNodeDB
+//@   trusted
+//@   ensures result1 == nil ==> result0 != nil && fresh(result0)
+//@   modifies nothing
+//@ func (*PartialState).ComputeProperties
+//@   prop C28
+//@   requires ps != nil
+//@   ensures[node-db-holds-exactly-the-listed-nodes] result == nil ==> ps.mndb != nil && ndb_size(obj(ps.mndb)) == len(ps.Nodes)
+//@   ensures[root-is-the-declared-hash] result == nil ==> bytes_eq(node_hash(ps.root), ps.Hash)
+//@   ensures[rejected-sets-nothing] result != nil ==> ps.mndb == old(ps.mndb) && ps.root == old(ps.root)
+//@   modifies ps.mndb, ps.root
